@@ -702,3 +702,39 @@ func (ex *Exec) useAxiom(cl *Clause, env *Env, pc string) {
 	em.assume(pc, implies(and(guards...), f))
 	em.Assumed["axiom "+ax.Name+" (manual, instantiated by use): "+ax.Text] = true
 }
+
+// mathCall applies an mfunc: a specification function that does not read program state. Its definition is emitted
+// once as an SMT define-fun, so repeated or nested applications keep the VC linear in size.
+func (env *Env) mathCall(sf *SpecFunc, args []Val, tenv *Env) Val {
+	em := env.em()
+	name := "m_" + sanitize(sf.Name)
+	rt := tenv.resolveType(sf.Ret)
+	rs := em.sortOf(rt)
+	if !em.declared["mfunc:"+name] {
+		em.declared["mfunc:"+name] = true
+		inner := &Env{ex: env.ex, st: newState(), old: nil, vars: map[string]Val{}, pkg: tenv.pkg, bound: 1, where: "mfunc " + sf.Name}
+		var binders []string
+		for _, p := range sf.Params {
+			pt := tenv.resolveType(p.Type)
+			pn := "mp_" + sanitize(p.Name)
+			binders = append(binders, fmt.Sprintf("(%s %s)", pn, em.sortOf(pt)))
+			inner.vars[p.Name] = Val{E: pn, S: em.sortOf(pt), T: pt}
+		}
+		body := inner.eval(sf.Body)
+		if body.S != rs {
+			env.fail("mfunc %s: body has sort %s, declared %s", sf.Name, body.S, rs)
+		}
+		em.pre = append(em.pre, fmt.Sprintf("(define-fun %s (%s) %s %s)", name, strings.Join(binders, " "), rs, body.E))
+	}
+	var terms []string
+	for _, a := range args {
+		if a.S == "VStr" {
+			env.fail("virtual string passed to mfunc %s", sf.Name)
+		}
+		terms = append(terms, a.E)
+	}
+	if len(terms) == 0 {
+		return Val{E: name, S: rs, T: rt}
+	}
+	return Val{E: "(" + name + " " + strings.Join(terms, " ") + ")", S: rs, T: rt}
+}
